@@ -1,6 +1,8 @@
 """C11 — tick values stay integers through every operation."""
 import gens as G
+import h1tok_util as HT
 import h4seq_util as U
+import h9b_util as HB
 import histories as H
 import pyimpl as P
 from oracle_util import *  # noqa
@@ -41,7 +43,9 @@ CLAUSES = [
 ]
 RULE = ("histories of <=6 (quick) / <=12 (thorough) public operations over integer-tick inputs, then bars (short, unequal "
         "tracks), compositions, tokenise/detokenise of the result; the canonical form prints every time with its Python type; "
-        "non-trivial = history with >= 2 mutators; plus padded-bar cases")
+        "non-trivial = history with >= 2 mutators; plus padded-bar cases; plus tokenisers of resolution 6/12/24/36/48/96 (or none given), each with and "
+        "without explicit step sizes / note values, on pieces written for that resolution: tick fields of tokens and vocabulary entries are integer "
+        "literals, the grids hold ints")
 ASSUMPTIONS = ["typing rules of the taint analysis are trusted as a description of Python's numeric tower: + - * // % min max abs of "
                "ints are ints; / , ** with an exponent not known non-negative, float literals, float(), math.*, np.* may be floats; "
                "int()/round()/len() return ints; attribute reads and parameters are int-typed (the property's premise); "
@@ -167,6 +171,65 @@ def o_history(inp):
     return []
 
 
+def o_tokeniser(inp):
+    """TOKENISER CONFIGURATIONS (seeded change C11 of round 9: the default grids of a tokeniser whose resolution is not the library's were
+    converted with a true division).  `kw`: integer constructor arguments — a resolution `ppqn` (or none), explicit `step_sizes` / `note_values`
+    (or none: the defaults), flags; `tracks`: integer-tick relative tracks written for that resolution and those grids.  Judged without any
+    table of the tokeniser as EXPECTATION: (a) every tick field of every emitted token (the text after rst_ / val_) is an integer literal,
+    (b) the grids the object holds and every vocabulary entry that embeds a tick value are ints / integer literals — the object's own
+    attributes are what is LOOKED AT here, nothing is compared with them —, (c) the carried state holds ints and both views of every
+    detokenised track hold int ticks."""
+    from scoda.tokenisation.notelike_tokenisation import MultiTrackLargeVocabularyNotelikeTokeniser as Tokeniser
+    kw = {k: (tuple(v) if k in ("pitch_range", "time_signature_range") else (list(v) if isinstance(v, list) else v)) for k, v in inp["kw"].items()}
+    for k in ("ppqn", "num_tracks", "velocity_bins"):
+        if k in kw and not is_int(kw[k]):
+            return [("~skip:outside-domain(non-integer-argument)", "")]
+    if any(not is_int(x) for k in ("step_sizes", "note_values") for x in (kw.get(k) or [])):
+        return [("~skip:outside-domain(non-integer-argument)", "")]
+    seqs = [P.seq_of_rel([tuple(m) for m in r]) for r in inp["tracks"]]
+    for i, q in enumerate(seqs):
+        if check_seq(f"input track {i}", q):
+            return [("~skip:outside-domain", "")]
+    try:
+        tk = Tokeniser(**kw)
+    except Exception as e:
+        return [("~skip:constructor-raises", f"{type(e).__name__}")]
+    fails = []
+    for name in ("step_sizes", "note_values"):
+        bad = HB.non_int_entries(getattr(tk, name))
+        if bad:
+            fails.append(("grid-int", f"tokeniser.{name} of Tokeniser({inp['kw']}) holds non-int tick values {bad[:4]} ({type(bad[0]).__name__})"))
+    bad = HB.non_integer_tick_fields(list(tk.dictionary.keys()))
+    if bad:
+        fails.append(("vocabulary-int", f"vocabulary entry {bad[0][0]!r} of Tokeniser({inp['kw']}) renders the tick field {bad[0][1]}_ as {bad[0][2]!r} ({len(bad)} such entries)"))
+    sd = {}
+    try:
+        toks = tk.tokenise(seqs, state_dict=sd) if inp.get("state_dict") else tk.tokenise(seqs)
+    except Exception as e:
+        return fails + [("~skip:tokenise-raises", f"{type(e).__name__}: {e}")]
+    bad = HB.non_integer_tick_fields(toks)
+    if bad:
+        fails.append(("token-int", f"token {bad[0][0]!r} renders the tick field {bad[0][1]}_ as {bad[0][2]!r}, not as an integer ({len(bad)} of {len(toks)} tokens)"))
+    for t in toks:
+        if "." in t or not isinstance(t, str):
+            fails.append(("token-int", f"token {t!r} renders a non-integer"))
+            break
+    for k, v in sd.items():
+        if not is_int(v):
+            fails.append(("int", f"tokeniser state {k} = {v!r}"))
+    for k in ("cur_time", "cur_rest_buffer"):
+        v = getattr(tk, k, None)
+        if v is not None and isinstance(v, float):
+            fails.append(("int", f"tokeniser memory {k} = {v!r}"))
+    try:
+        back = tk.detokenise(toks)
+    except Exception:
+        return fails
+    for ti, sq in enumerate(back):
+        fails += check_seq(f"detokenised track {ti}", sq)
+    return fails
+
+
 def o_piece(inp):
     """bar splitting (either re-quantisation setting) of a multi-track piece, bars rebuilt into a composition and back"""
     from scoda.sequences.sequence import Sequence
@@ -216,6 +279,7 @@ def setup(ctx):
     ctx.oracle("history", o_history)
     ctx.oracle("piece", o_piece)
     ctx.oracle("bar", o_bar)
+    ctx.oracle("tokeniser", o_tokeniser)
 
 
 def generate(ctx):
@@ -263,4 +327,15 @@ def generate(ctx):
             ctx.count("piece:unreleased-note")
             ctx.check("piece", {"tracks": trs, "requant": rq})
             ctx.corr("splitBars", P.op_splitBars(0, rq, trs))
+        # tokenisers of any integer resolution, with and without explicit grids (seeded change C11, round 9): a piece written for that
+        # resolution and those grids (onsets on the smallest step, lengths among the note values, tracks of unequal length)
+        for _ in range(2):
+            kw, label = HB.gen_tok_cfg(rng)
+            nt = rng.choice([1, 2, 2, 3])
+            pc = HT.gen_piece_p(rng, ppqn=kw.get("ppqn") or 24, steps=kw.get("step_sizes"), values=kw.get("note_values"), n_tracks=nt,
+                                n_bars=rng.randint(1, 3), tail_ok=rng.random() < 0.3)
+            kw.update(num_tracks=nt, velocity_bins=rng.choice([1, 4, 8]), flag_running_values=rng.random() < 0.5, flag_fuse_track=rng.random() < 0.5,
+                      flag_fuse_value=rng.random() < 0.5, flag_fuse_velocity=rng.random() < 0.5)
+            ctx.count("tokeniser:" + label)
+            ctx.check("tokeniser", {"kw": kw, "tracks": pc["tracks"], "state_dict": rng.random() < 0.5})
         ctx.sample({"init": [init[0], init[1][:4]], "ops": [o[0] for o in ops]})
